@@ -301,6 +301,7 @@ def parts(tier):
     from . import c02, c16
 
     return [
+        Part("acidtable", check, cases=lambda: e2e.acid_table("acidtable"), exhaustive=True),
         Part("nettable", check, cases=lambda: e2e.network_cases("nettable", tier), exhaustive=True),
         Part("ligand", check_ligand, strategy=c16.complex_case(), budget=dict(quick=160, thorough=3000)),
         Part("na", check_na, strategy=c02.na_case().map(lambda c: dict(c, part="na")), budget=dict(quick=160, thorough=3000)),
